@@ -108,6 +108,10 @@ func (C07) Gen(r *simrt.RNG, tier string) core.Case {
 			kind = world.ArgConvFunc
 		}
 		addArg(world.ArgSpec{Kind: kind, Party: 1})
+		// a further value of the competing type, given by type only
+		if sub == "" && r.Chance(1, 5) {
+			addArg(world.ArgSpec{Kind: world.ArgTyped, Label: world.Label{Type: T0}})
+		}
 	} else {
 		w.Note = "B"
 		addArg(world.ArgSpec{Kind: world.ArgNamed, Label: world.Label{Name: n, Type: T0}, Spell: spell(n)})
@@ -131,6 +135,16 @@ func (C07) Gen(r *simrt.RNG, tier string) core.Case {
 			if cc.InForm != world.FormPositional && cc.InForm != world.FormBuilt && r.Chance(1, 4) {
 				fl := world.Label{Name: []string{"x", "y"}[ci], Type: perm[7+ci]}
 				cc.In = append(cc.In, world.Slot{Label: fl})
+				addArg(world.ArgSpec{Kind: world.ArgNamed, Label: fl, Spell: fl.Name})
+			}
+		}
+		// a wide name-using converter: many further inputs, all given directly. The
+		// number of inputs a converter has is no reason to pass it over.
+		if c1.InForm != world.FormBuilt && r.Chance(1, 6) {
+			nw := 4 + r.Intn(4)
+			for i := 0; i < nw; i++ {
+				fl := world.Label{Name: fmt.Sprintf("f%d", i), Type: perm[8]}
+				c1.In = append(c1.In, world.Slot{Label: fl})
 				addArg(world.ArgSpec{Kind: world.ArgNamed, Label: fl, Spell: fl.Name})
 			}
 		}
@@ -312,7 +326,7 @@ func c07Shape(w world.World) (shape string, n string, T0, T1 int, conv, nameConv
 		}
 		T0 = p.In[typeOnlySlot(p)].Type
 		tot, hasN, typed := countNamed(T0)
-		if tot < 2 || !hasN || typed || T0 == T1 {
+		if _ = typed; tot < 2 || !hasN || T0 == T1 {
 			return "", "", 0, 0, 0, 0
 		}
 		for _, fs := range p.In {
